@@ -105,4 +105,76 @@ theorem tie_check_trajectory_supported (m : VModel) (T : TType) :
     Gen.Sol_check_trajectory_supported m T = if validVehicleModel T m then .ok true else .error .other := by
   cases m <;> cases T <;> rfl
 
+/-! ## header: writer `_create_root_node`, reader `_parse_header` -/
+
+/-- The root element the writer builds: tag "CommonRoadSolution"; the attribute dict is `benchmark_id` followed by exactly the
+    model's `rootAttrs` — `computation_time` / `date` / `processor_name` each only under its `is not None` guard (absent stays
+    absent), the date written with the very format string the codec's `fmtDate` stands for. -/
+theorem tie_create_root_node (c : Codec) (auto : Option String) (s : Solution) :
+    Gen.Sol_create_root_node c auto s =
+      .ok ("CommonRoadSolution", ("benchmark_id", benchString (benchOf s)) :: rootAttrs c auto s) := by
+  unfold Gen.Sol_create_root_node rootAttrs
+  cases hct : s.ct <;> cases hd : s.date <;>
+    cases hp : (if s.proc = some "auto" then auto else s.proc) <;>
+    simp [hct, hd, hp, setAttr, optAttr, strftime, bind, Except.bind, pure, Except.pure]
+
+/-- The header the reader extracts: the attributes read are exactly `benchmark_id`, `date`, `computation_time`,
+    `processor_name`, each with default None; the only conversions are the two-format `strptime` chain (the codec's `prsDate`,
+    whose first format string is the writer's) and `float()` (the codec's `prsNum`). -/
+theorem tie_parse_header (c : Codec) (attrs : List (String × String)) :
+    Gen.Sol_parse_header c attrs =
+      (match parseHeader c attrs with
+       | .ok (d, t, p) => .ok (attrs.lookup "benchmark_id", d, t, p)
+       | .error e => .error e) := by
+  unfold Gen.Sol_parse_header parseHeader
+  simp only [dictGet, strptime2, CR.PyS.float]
+  cases attrs.lookup "date" with
+  | none =>
+    cases attrs.lookup "computation_time" with
+    | none => simp [bind, Except.bind, pure, Except.pure]
+    | some t => cases h : c.prsNum t <;> simp [h, bind, Except.bind, pure, Except.pure]
+  | some dt =>
+    cases hd : c.prsDate dt with
+    | none => simp [hd, bind, Except.bind, pure, Except.pure]
+    | some d =>
+      cases attrs.lookup "computation_time" with
+      | none => simp [hd, bind, Except.bind, pure, Except.pure]
+      | some t => cases h : c.prsNum t <;> simp [hd, h, bind, Except.bind, pure, Except.pure]
+
+/-- writer header attributes = reader header attributes: every attribute name the writer can set is one the reader reads, and
+    vice versa (a finite fact about the two translated functions, read off their normal forms above). -/
+theorem tie_header_attribute_names (c : Codec) (auto : Option String) (s : Solution) :
+    ∀ k ∈ (("benchmark_id", benchString (benchOf s)) :: rootAttrs c auto s).map (·.1),
+      k ∈ ["benchmark_id", "date", "computation_time", "processor_name"] := by
+  intro k hk
+  cases hct : s.ct <;> cases hd : s.date <;> cases hp : (if s.proc = some "auto" then auto else s.proc) <;>
+    simp [rootAttrs, hct, hd, hp, optAttr] at hk <;> grind
+
+/-! ## leaves: writer `_create_sub_element`, reader `_parse_sub_element` -/
+
+/-- The text of a written leaf is `str(np.float64(value) if isinstance(value, float) else value)` — the model's `subText`:
+    no rounding, no other transformation of the value on the way to the text. -/
+theorem tie_create_sub_element (c : Codec) (name : String) (v : FVal) :
+    Gen.Sol_create_sub_element c name v =
+      (match subText c v with | .ok t => .ok ⟨name, t⟩ | .error e => .error e) := by
+  unfold Gen.Sol_create_sub_element
+  simp only [CR.PyS.str, npFloat64, ite_self]
+  cases subText c v <;> rfl
+
+/-- The value of a read leaf is `float(elem.text)` / `int(elem.text)` of the first child with that tag — the model's `subNum`
+    / `subInt`: no transformation other than the codec's readers. -/
+theorem tie_parse_sub_element_float (c : Codec) (l : List Leaf) (n : String) :
+    Gen.Sol_parse_sub_element c l n true = (match subNum c l n with | .ok v => .ok (.num v) | .error e => .error e) := by
+  unfold Gen.Sol_parse_sub_element subNum
+  cases findLeaf n l with
+  | none => rfl
+  | some e => simp only [CR.PyS.float]; cases c.prsNum e.text <;> rfl
+
+theorem tie_parse_sub_element_int (c : Codec) (l : List Leaf) (n : String) :
+    Gen.Sol_parse_sub_element c l n false = (match subInt c l n with | .ok v => .ok (.time v) | .error e => .error e) := by
+  unfold Gen.Sol_parse_sub_element subInt
+  cases findLeaf n l with
+  | none => rfl
+  | some e => simp only [CR.PyS.int]; cases c.prsInt e.text <;> rfl
+
 end CR.Sol
